@@ -1,6 +1,8 @@
 PROP = {
     "num": 5,
     "runs": [{"tag": "c05", "bin": "c05"},
+             # optimised build of the same cases: no debug assertions, no overflow checks, inlined unsafe paths
+             {"tag": "c05rel", "bin": "c05", "profile": "release", "tiers": ["thorough"]},
              # an element destructor that panics INSIDE the caller's closure of map/zip/fold and of the
              # iterator's fold/rfold: the intermediate consumer/builder/iterator is torn down by unwinding
              {"tag": "c05forms", "bin": "c04", "args": ["--mode", "1"], "num": 4},
